@@ -7,6 +7,7 @@ mod io;
 mod io_gen;
 mod io_run;
 mod json;
+mod miri_run;
 mod model;
 mod ops;
 mod refmul;
@@ -257,6 +258,7 @@ fn main() {
         "io" => cmd_io(&m),
         "replay" => cmd_replay(&m),
         "sched" => sched_run::cmd_sched(&m),
+        "miri" => miri_run::cmd_miri(&m),
         other => harness_error(&format!("unknown command {}", other)),
     };
     std::process::exit(code)
